@@ -44,6 +44,114 @@ RULE = ("cases: random known-haplotype sets (1..6 haplotypes), ploidy 1..6, freq
 F32 = 2e-5   # float32 storage of the likelihood / posterior arrays on the GP/GL path
 
 
+def _vcf_index(g):
+    return sum(math.comb(a + k, k + 1) for k, a in enumerate(sorted(g)))
+
+
+def cli_posterior_oracle(chk, drv, synth, ds, tmp, inb):
+    """End to end: what `mchap call-exact` prints for a sample is the posterior of the model evaluated on the
+    reads the program encoded for that sample, the haplotypes of the record and the prior the record reports
+    (AFPRIOR = the locus' frequencies) — with and without GP (both code paths), without / with
+    --prior-frequencies, with a masked reference (REFMASKED input flag, --filter-input-haplotypes)."""
+    from .c10 import Observer
+    out, rc, err = synth.run_program(ds.assemble_argv("--mcmc-steps", "300", "--mcmc-burn", "100", "--mcmc-seed", "7",
+                                                      "--report", "AFP"))
+    if rc != 0:
+        chk.notes.append(f"assemble failed on the synthetic data set: {err[:200]}")
+        return
+    hap = synth.bgzip_tabix_vcf(synth.write_text(tmp + "/hapE.vcf", out))
+    masked_lines = []
+    for line in out.split("\n"):
+        if line and not line.startswith("#"):
+            f = line.split("\t")
+            if f[4] != "." and "REFMASKED" not in f[7].split(";"):
+                f[7] = "REFMASKED;" + f[7]
+            line = "\t".join(f)
+        masked_lines.append(line)
+    hap_m = synth.bgzip_tabix_vcf(synth.write_text(tmp + "/hapM.vcf", "\n".join(masked_lines)))
+    variants = [("plain", hap, []), ("refmasked-input", hap_m, []), ("prior-AFP", hap, ["--prior-frequencies", "AFP"]),
+                ("refmasked-input+prior-AFP", hap_m, ["--prior-frequencies", "AFP"]),
+                ("filter", hap, ["--filter-input-haplotypes", "AFP>=0.2"])]
+    obs = Observer()
+    obs.install()
+    memo = {}
+    try:
+        for vname, hv, extra in variants:
+            for rep in (("GP", "AFP", "ACP", "AOP", "AFPRIOR"), ("AFP", "ACP", "AOP", "AFPRIOR")):
+                obs.active = True
+                try:
+                    o, rc2, e2 = synth.run_program(ds.call_argv("call-exact", hv, "--inbreeding", inb, "--report", *rep, *extra))
+                finally:
+                    obs.active = False
+                loci, _, _ = obs.take()
+                chk.count(f"cli-oracle:{vname}")
+                tag = {"variant": vname, "report": list(rep), "extra": extra}
+                if rc2 != 0:
+                    chk.violation("call-exact fails on a valid haplotype VCF", {**tag, "error": e2[:300]}, "C03/cli/crash")
+                    continue
+                _, recs = synth.parse_vcf_text(o)
+                by_name = {x["locus"]: x for x in loci}
+                reqs, meta = [], []
+                for rec in recs:
+                    L = by_name.get(rec["ID"])
+                    if L is None or "haplotypes" not in L:
+                        continue
+                    freqs = np.array(L["frequencies"], dtype=float)
+                    gts = [smp.get("GT", "") for smp in rec["samples"]]
+                    if rec["FILTER"] not in ("PASS", ".") or np.any(np.isnan(freqs)) or any("." in g for g in gts):
+                        chk.count("cli-oracle:skipped-filtered-record")
+                        continue
+                    haps = [[int(x) for x in row] for row in L["haplotypes"]]
+                    for j_, (name, smp) in enumerate(zip(rec["sample_names"], rec["samples"])):
+                        if vname != "plain" and j_ >= 2 and len(haps) > 5:
+                            continue    # the exact model is slow on large panels: two samples per record there
+                        reads, counts = L["arrays"][name]
+                        if len(counts) == 0:
+                            reads = np.full((1, len(haps[0]), 2), np.nan); counts = np.array([1], dtype=np.int64)
+                        ploidy = int(L["ploidy"][name]); F = float(L["inbreeding"][name])
+                        reqs.append(" ".join(["exact.all"] + call_tokens(np.array(reads, dtype=float), np.array(counts), haps, F, freqs) + [str(ploidy)]))
+                        meta.append((rec, name, smp, ploidy, F, freqs, haps))
+                todo = [q for q in dict.fromkeys(reqs) if q not in memo]
+                memo.update(zip(todo, drv.ask(todo)))
+                for (rec, name, smp, ploidy, F, freqs, haps), a in zip(meta, [memo[q] for q in reqs]):
+                    parts = a.split(";")
+                    if len(parts) < 9:
+                        chk.disagreement("model cannot evaluate a CLI case", {**tag, "locus": rec["ID"], "sample": name, "model": a[:200]})
+                        continue
+                    m_post = [float(C.parse_rat(x)) for x in parts[0].split()]
+                    if not m_post or sum(C.parse_rat(x) for x in parts[8].split()) == 0:
+                        chk.count("cli-oracle:zero-total")
+                        continue
+                    m_afp = [float(C.parse_rat(x)) for x in parts[5].split()]
+                    m_acp = [float(C.parse_rat(x)) for x in parts[6].split()]
+                    m_aop = [float(C.parse_rat(x)) for x in parts[7].split()]
+                    case = {**tag, "locus": rec["ID"], "sample": name, "ploidy": ploidy, "inbreeding": F,
+                            "prior": [float(x) for x in freqs], "n_haplotypes": len(haps), "line": rec["line"][:300]}
+                    chk.case(("cli-oracle", vname, rep, rec["ID"], name), len(haps) >= 2)
+                    tol = 0.0005 + 1e-4
+                    gt = [int(x) for x in smp["GT"].split("/")]
+                    best = max(m_post)
+                    if m_post[_vcf_index(gt)] < best - 1e-3:
+                        chk.violation("call-exact GT is not a maximiser of likelihood x reported prior",
+                                      {**case, "GT": gt, "P(GT)": m_post[_vcf_index(gt)], "max": best}, "C03/cli/GT-not-maximiser")
+                    if "GPM" in smp and smp["GPM"] != "." and abs(float(smp["GPM"]) - m_post[_vcf_index(gt)]) > tol:
+                        chk.violation("call-exact GPM is not the posterior probability of the reported GT",
+                                      {**case, "GPM": smp["GPM"], "model": m_post[_vcf_index(gt)]}, "C03/cli/GPM")
+                    if "GP" in smp and smp["GP"] != ".":
+                        gp = [float(x) for x in smp["GP"].split(",")]
+                        if len(gp) != len(m_post) or any(abs(x - y) > tol for x, y in zip(gp, m_post)):
+                            chk.violation("call-exact GP is not likelihood x reported prior normalised over the genotypes in VCF order",
+                                          {**case, "GP": gp[:12], "model": [round(x, 5) for x in m_post[:12]]}, "C03/cli/GP")
+                    for key, mv, scale in (("AFP", m_afp, 1), ("ACP", m_acp, ploidy), ("AOP", m_aop, 1)):
+                        if key in smp and smp[key] != ".":
+                            iv = [float(x) for x in smp[key].split(",")]
+                            if len(iv) != len(mv) or any(abs(x - y) > tol * scale for x, y in zip(iv, mv)):
+                                chk.violation(f"call-exact {key} is not the posterior summary of likelihood x reported prior",
+                                              {**case, key: iv, "model": [round(x, 5) for x in mv]}, f"C03/cli/{key}")
+    finally:
+        obs.uninstall()
+
+
 def run(tier, replay=None):
     from mchap.calling import exact as E
 
@@ -214,6 +322,7 @@ def run(tier, replay=None):
                                                   {"pos": rb["POS"], "field": key, "default": sb[key], "with": list(rs), "value": sr[key]},
                                                   "C03/cli/report-dependence")
                 chk.case(("cli", d), True)
+                cli_posterior_oracle(chk, drv, synth, ds, tmp, inb)
             finally:
                 shutil.rmtree(tmp, ignore_errors=True)
     return chk.finish()
